@@ -34,6 +34,18 @@ CLAIMED = {
         note="Curve parameters are read from the library and sanity-checked by the reference (C18 validates them). "
              "Each coordinate-specific routine is fed only the representations it documents.",
         tech=PBT + "an independent affine Weierstrass reference; differential oracle on reference-normalised points"),
+    "C04": dict(
+        text="Generated-input search over the optimal-ate (pc_map), Tate and Weil pairings and their multi-pairing forms "
+             "on every k=12 pairing-friendly set selectable in the build (BN-P256, SM9-P256; BLS12-381 in the thorough "
+             "tier): inputs are reference-computed multiples of the generators in affine/projective form, scalars from "
+             "0 to beyond r incl. negatives, lists of 0..6 pairs with identities and cancelling pairs; oracle: "
+             "e([x]G1,[y]G2) = e(G1,G2)^(xy mod r) with the power taken in an independent Python Fp12 tower, "
+             "non-degeneracy, order dividing r, identity handling, product rule for multi-pairings, multiplicativity "
+             "and order of the final exponentiation.",
+        note="Inputs are group members or the identity. Tower non-residues / twist coefficients are parameters read "
+             "from the library and checked for consistency (irreducibility, b' = b/xi or b*xi). k = 8/16/18/24/48 "
+             "families are not modelled yet (listed in evidence notes).",
+        tech=PBT + "an independent Fp12 tower + curve reference; metamorphic bilinearity oracle"),
 }
 REASONS_TODO = "check not built yet (work in progress; see DESIGN.md §5 implementation order)"
 
